@@ -11,6 +11,7 @@ CONSTANTS
   MaxR = 60
   HeightSet <- AnyHeight
   Direct = 60
+  Probes <- ProbesM
   Pinned <- PinnedM
   EmitRate = 1
   FocusRate = 0
